@@ -56,6 +56,7 @@ type connState struct {
 	peerCause  bool    // a peer/I-O close cause existed before OnClose ran
 	inCB       bool
 	faulted    bool
+	udp        bool
 	wakesDue   int // Wake requests accepted and not yet seen as OnTraffic
 	extraTraf  int
 	afterClose int
@@ -79,6 +80,11 @@ type peerState struct {
 	startNow     bool
 	dialFd       int
 	dialAsked    bool
+	udpKey       string
+	udpRemote    unix.Sockaddr
+	udpSeen      int
+	udpEmpty     bool
+	udpSizes     map[int]int
 }
 
 type asyncRec struct {
@@ -138,6 +144,9 @@ type World struct {
 	lcSnap           map[int]map[string]int
 	udp              *udpState
 	udpDrained       bool
+	cli              *gnet.Client
+	clientStop       bool
+	clientCalls      int
 	userFds          []int
 	dialQueue        []int
 	stopPending      int
@@ -369,6 +378,10 @@ func (w *World) run() {
 	defer func() { vnet.DialHook = nil }()
 
 	s.Go("run", func() {
+		if p.Cfg.Client {
+			w.runClient()
+			return
+		}
 		err := gnet.Run(&handler{w}, w.addr, w.options()...)
 		w.runDone, w.runErr, w.runDoneStep = true, err, w.s.Step()
 		w.logf("run returned err=%v", err)
@@ -434,7 +447,7 @@ func (w *World) events() []vsched.Event {
 			}})
 		}
 	}
-	if !w.stopRequested && !w.stopEventUsed && w.booted && w.p.Stop.AtStep > 0 && w.s.Step() >= w.p.Stop.AtStep && (w.p.Stop.Source == "engine.Stop" || w.p.Stop.Source == "gnet.Stop") {
+	if !w.stopRequested && !w.stopEventUsed && w.booted && w.p.Stop.AtStep > 0 && w.s.Step() >= w.p.Stop.AtStep && (w.p.Stop.Source == "engine.Stop" || w.p.Stop.Source == "gnet.Stop" || w.p.Stop.Source == "client.Stop") {
 		evs = append(evs, vsched.Event{Name: "stop", Run: func() { w.stopEventUsed = true; w.requestStop() }})
 	}
 	evs = append(evs, w.udpEvents()...)
@@ -465,7 +478,7 @@ func (w *World) inTransit() bool {
 
 func (w *World) connOfSock(sk *vsys.Sock) *connState {
 	for _, cs := range w.conns {
-		if cs != nil && cs.sock == sk {
+		if cs != nil && cs.sock != nil && cs.sock == sk {
 			return cs
 		}
 	}
@@ -478,6 +491,11 @@ func (w *World) requestStop() {
 	}
 	w.stopRequested = true
 	w.logf("stop requested via %s at step %d", w.p.Stop.Source, w.s.Step())
+	if w.p.Cfg.Client {
+		w.markLocalAll()
+		w.clientStop = true
+		return
+	}
 	for _, cs := range w.conns {
 		if cs != nil && cs.opened && !cs.closed {
 			cs.localReq = true
@@ -575,6 +593,10 @@ func (w *World) peerEnabled(ps *peerState) bool {
 		return false
 	}
 	op := &ps.cp.Peer[ps.pc]
+	if ps.cp.UDP {
+		cs := w.conns[ps.idx]
+		return cs != nil && cs.opened && !cs.closed
+	}
 	switch op.K {
 	case "send":
 		return ps.cli.PeerRoom() > 0 || ps.cli.Peer().Closed() || ps.cli.PeerSawReset()
@@ -601,6 +623,30 @@ func (w *World) peerStep(ps *peerState) {
 	}
 	op := &ps.cp.Peer[ps.pc]
 	adv := true
+	if ps.cp.UDP {
+		if op.K == "send" {
+			id := w.k.UDPInjectCount() + 1
+			payload := make([]byte, op.N)
+			for i := range payload {
+				payload[i] = dgramByte(id, i)
+			}
+			if ps.udpSizes == nil {
+				ps.udpSizes = map[int]int{}
+			}
+			if got := w.k.UDPInject(ps.udpKey, payload, ps.udpRemote); got != 0 {
+				ps.udpSizes[got] = op.N
+			}
+			if op.N == 0 {
+				ps.udpEmpty = true // the default build reads client UDP sockets like streams: an empty datagram looks like EOF
+			}
+			w.logf("peer%d udp datagram %d bytes", ps.idx, op.N)
+		}
+		ps.pc++
+		if ps.pc >= len(ps.cp.Peer) {
+			ps.done = true
+		}
+		return
+	}
 	switch op.K {
 	case "send":
 		if ps.rem == 0 {
